@@ -14,6 +14,6 @@ Definition gen_info : pyinfo := {|
 Definition fmtpy_parse_gen (s : list N) := fmtpy_parse gen_info s.
 
 Definition gen_ucd : ucd := {|
-  u_w := re_w; u_d := re_d; u_isdigit := py_isdigit; u_isdecimal := py_isdecimal;
+  u_w := re_w; u_d := re_d; u_isdecimal := py_isdecimal;
   u_decval := re_d_value; u_maxd := int_max_str_digits |}.
 Definition pybrace_parse_gen (s : list N) := pybrace_parse gen_ucd gen_pybrace_ssize_max s.
